@@ -15,6 +15,7 @@ import featlib
 from featlib import Check, rel, walk
 import symex
 from symex import SymEx, AbsSymEx, Poly, Loc, NotClosedForm, leaf_name, loc_name, strip_targs
+import norm_c16 as norm
 
 F = featlib.repo_path
 FILES = "|".join([F("kernel/assembly/"), F("kernel/eval_tags.hpp"), F("kernel/util/tiny_algebra.hpp"),
@@ -175,12 +176,26 @@ def fields_read(fn, facts, param_index, sx_lookup):
         if (f.full, d) in seen:
             return
         seen.add((f.full, d))
+        # the parameter and every local bound to / copied from it (named references, `const auto& p = phi;`)
+        ds = {d}
+        grew = True
+        while grew:
+            grew = False
+            for n in f.nodes():
+                if n.get("k") == "Var" and n.get("init") is not None and n.get("d") not in ds:
+                    i0 = norm.strip(n["init"])
+                    while i0 is not None and ((i0.get("k") in ("Construct", "TempObj") and len(i0.get("a") or []) == 1) or (i0.get("k") == "Un" and i0.get("op") == "&")):
+                        i0 = norm.strip(i0["a"][0] if i0.get("k") != "Un" else i0.get("e"))
+                    if i0 is not None and i0.get("k") == "Ref" and i0.get("d") in ds:
+                        ds.add(n["d"])
+                        grew = True
         for n in f.nodes():
-            if n.get("k") == "Member" and (n.get("b") or {}).get("k") == "Ref" and n["b"].get("d") == d:
+            if n.get("k") == "Member" and (norm.strip(n.get("b")) or {}).get("k") == "Ref" and norm.strip(n["b"]).get("d") in ds:
                 out.add(n["n"])
             if featlib.is_call(n):
                 for pos, a in enumerate(n.get("a", [])):
-                    if a.get("k") == "Ref" and a.get("d") == d:
+                    a = norm.strip(a) or {}
+                    if a.get("k") == "Ref" and a.get("d") in ds:
                         t = sx_lookup(n, f)
                         if t is not None:
                             off = 1 if (n["k"] == "OpCall" and len(t.params) == len(n.get("a", [])) - 1) else 0
@@ -597,6 +612,10 @@ def analyse_route(ck, facts, key, fns, two_space, kind, coeff=False):
         problems, punk = [], []
 
         def data_of(a, what):
+            if isinstance(a, Loc) and len(a.path) >= 2 and a.path[-2] == "phi" and isinstance(a.path[-1], int):
+                # a fixed basis function inside the loops over the basis functions: definite
+                problems.append("%s argument is the fixed basis function %s, not the basis function of a loop index" % (what, a))
+                return None, None
             if not isinstance(a, Loc) or len(a.path) < 2 or a.path[-2] != "phi" or not (isinstance(a.path[-1], str) and a.path[-1].startswith("#")):
                 punk.append("%s argument %s is not <evaluation data>.phi[<loop index>]" % (what, a))
                 return None, None
@@ -683,7 +702,9 @@ def analyse_route(ck, facts, key, fns, two_space, kind, coeff=False):
             kname = kv.single_symbol() if isinstance(kv, Poly) else None
             tdn = jsyms[0][:-len(".jac_det")]
             te = trafo_fill.get(tdn)
-            if kname is None or kname not in loops:
+            if isinstance(kv, Poly) and kv.const_value() is not None:
+                wprob.append("the weight is that of the fixed cubature point %s, not of the point the data is computed at" % kv)
+            elif kname is None or kname not in loops:
                 wunk.append("the weight index %s is not a recognised cubature loop variable" % kv)
             elif te is None:
                 wunk.append("jac_det is read from %s which is not filled by a recognised trafo evaluator call" % tdn)
@@ -864,7 +885,10 @@ def check_scatter(ck, facts, tier):
         if key in seen:
             continue
         seen.add(key)
-        sx = AbsSymEx([facts], inline_filter=lambda t, c: "/kernel/util/tiny_algebra.hpp" in t.file)
+        # helpers extracted from the functor (private members of the same class, static / `_private` functions of the same
+        # header, e.g. a column search shared by the scatter and the gather twin) belong to the functor body
+        sx = AbsSymEx([facts], inline_filter=lambda t, c, f=f: "/kernel/util/tiny_algebra.hpp" in t.file or
+                      (t.file == f.file and (t.cls == f.cls or t.name.startswith("_"))))
         try:
             sx.run(f)
         except NotClosedForm as e:
@@ -1052,11 +1076,21 @@ def check_symbolic(ck, facts, tier):
                 return describe(n["a"][0])
             return ("?", k)
         ret = None
+        graph_vars = {n["d"] for n in walk(f.body) if n.get("k") == "Var" and "Graph" in f.type(n.get("t"))}
+        rets = []
         for n in walk(f.body):
-            if n.get("k") == "Var" and n.get("init") is not None and "Graph" in f.ntype(n) or (n.get("k") == "Var" and n.get("init") is not None and "Graph" in f.type(n.get("t"))):
+            if n.get("k") == "Var" and n.get("init") is not None and "Graph" in f.type(n.get("t")):
                 desc[n["d"]] = describe(n["init"])
+            # a Graph local declared first and assigned later (`Graph g; g = Graph(...)`): the assigned value; a second,
+            # different definition makes the variable unknown (decided as analysis-incomplete below)
+            if n.get("k") == "OpCall" and n.get("op") == "=" and len(n.get("a") or []) == 2 and (n["a"][0] or {}).get("k") == "Ref" and n["a"][0].get("d") in graph_vars:
+                dn = describe(n["a"][1])
+                d0 = n["a"][0]["d"]
+                desc[d0] = dn if desc.get(d0) in (None, dn, ("call", "Graph")) else ("?", "%s (several definitions)" % n["a"][0].get("n"))
             if n.get("k") == "Return" and n.get("e") is not None:
-                ret = describe(n["e"])
+                rets.append(describe(n["e"]))
+        if rets:
+            ret = rets[0] if all(r == rets[0] for r in rets) else ("?", "several different return values")
 
         def flat(d):
             """composition chain, left to right; transposition is pushed inside: T(A o B) = T(B) o T(A), T(T(x)) = x"""
@@ -1401,6 +1435,46 @@ def _root_var(n):
     return None, None
 
 
+def _switch_arms(n, G):
+    """statements of a switch body with the guard under which each runs: the disjunction of the labels since the last
+    break (`case v:` is the atom `selector == v`, `default:` the negation of all case atoms), i.e. the if-chain it stands for"""
+    sel = n.get("c")
+    stmts = n["body"].get("s") or []
+
+    def labels(st):
+        vals = []
+        while isinstance(st, dict) and st.get("k") in ("Case", "Default"):
+            vals.append(None if st["k"] == "Default" else st.get("v"))
+            st = st.get("s")
+        return vals, st
+    all_cases = []
+    for st in stmts:
+        vals, _ = labels(st)
+        all_cases += [v for v in vals if v is not None]
+
+    def atom(v):
+        return G.formula({"k": "Bin", "op": "==", "lhs": sel, "rhs": v, "t": None})
+
+    def disj(fs):
+        r = ("const", False)
+        for f in fs:
+            r = ("or", r, f)
+        return r
+    default_f = ("not", disj([atom(v) for v in all_cases]))
+    cur = []
+    falls = False
+    out = []
+    for st in stmts:
+        vals, inner = labels(st)
+        if vals:
+            new = [default_f if v is None else atom(v) for v in vals]
+            cur = (cur + new) if falls else new
+        if inner is not None:
+            out.append((inner, disj(cur) if cur else ("const", False)))
+            falls = norm.exits_region(inner) is None
+    return out
+
+
 def collect_defuse(fn):
     """kills / reads of variables with their guards.  -> (kills, reads) lists of dicts
     {var, guard (list of formulas between the region loop and the site), region (id of the loop node or 0), order, line, whole}"""
@@ -1417,6 +1491,16 @@ def collect_defuse(fn):
         counter[0] += 1
         order = counter[0]
         k = n.get("k")
+        if k == "Block":
+            # early-exit normal form: after `if(c) return / continue / break;` the rest of the block runs under !c
+            for st, guards in norm.guarded_statements(n):
+                visit(st, stack + [("if", G.formula(c) if pol else ("not", G.formula(c))) for c, pol in guards])
+            return
+        if k == "Switch" and isinstance(n.get("body"), dict) and n["body"].get("k") == "Block":
+            visit(n.get("c"), stack)
+            for st, f in _switch_arms(n, G):
+                visit(st, stack + [("if", f)])
+            return
         if k == "If":
             visit(n.get("init"), stack)
             visit(n.get("c"), stack)
@@ -1466,10 +1550,14 @@ def collect_defuse(fn):
         vk = _varkey(n)
         if vk is not None and id(n) not in kill_targets:
             reads.append({"var": vk, "stack": list(stack), "order": order, "line": n.get("l")})
+        if k in ("Call", "MCall") and n.get("cdecl") is not None and (k == "Call" or n.get("obj") is None or (n.get("obj") or {}).get("k") == "This"):
+            calls.append({"cdecl": n.get("cdecl"), "stack": list(stack), "line": n.get("l")})
         for c in featlib.children(n):
             visit(c, stack)
 
+    calls = []
     visit(fn.body, [])
+    G.calls = calls
 
     def region_of_kill(stack):
         """skip inner loops up to the first if; collect ifs; stop at the next loop"""
@@ -1516,10 +1604,53 @@ def check_guarded_defuse(ck, facts_list_named, tier):
             seen_fn.add(sig)
             kills, reads, G = collect_defuse(f)
             analysed.append((f, kills, reads, G))
-            if f.name in WRITER_METHODS:
-                for kl in kills:
-                    if kl["var"][0] == "m":
-                        member_kills.setdefault(kl["var"][1], []).append((f, kl, [s[1] for s in kl["stack"] if s[0] == "if"]))
+        sig_of = lambda f: (symex.strip_targs(f.cls), f.name, len(f.params))
+        by_sig = {sig_of(e[0]): e for e in analysed}
+        decl_sig = {f.d.get("decl"): sig_of(f) for f in fns if f.d.get("decl") is not None}
+
+        def callee_entry(call):
+            return by_sig.get(decl_sig.get(call["cdecl"]))
+
+        def kills_through(entry, prefix, depth, origin):
+            """member kills of a per-cell / per-point method including those of the helpers it calls (call-site guards prepended)"""
+            f, kills, reads, G = entry
+            for kl in kills:
+                if kl["var"][0] == "m":
+                    member_kills.setdefault(kl["var"][1], []).append((origin, kl, prefix + [s[1] for s in kl["stack"] if s[0] == "if"]))
+            if depth < 2:
+                for c in G.calls:
+                    e2 = callee_entry(c)
+                    if e2 is not None and e2[0] is not f and e2[0].name not in WRITER_METHODS:
+                        kills_through(e2, prefix + [s[1] for s in c["stack"] if s[0] == "if"], depth + 1, origin)
+        helper_of_writer = set()
+        for entry in analysed:
+            if entry[0].name in WRITER_METHODS:
+                kills_through(entry, [], 0, entry[0])
+                for c in entry[3].calls:
+                    e2 = callee_entry(c)
+                    if e2 is not None:
+                        helper_of_writer.add(sig_of(e2[0]))
+        # call sites of every analysed function inside the analysed set (the context a private helper runs in)
+        callers = {}
+        for entry in analysed:
+            for c in entry[3].calls:
+                e2 = callee_entry(c)
+                if e2 is not None and e2[0] is not entry[0]:
+                    callers.setdefault(sig_of(e2[0]), []).append((entry, [s[1] for s in c["stack"] if s[0] == "if"]))
+
+        def context(fsig, depth=0):
+            """disjunction over the known call sites of (guards at the call site AND context of the caller); None: no known caller"""
+            cs = callers.get(fsig)
+            if not cs or depth > 2:
+                return None
+            r = ("const", False)
+            for (entry, ifs) in cs:
+                g = _Guards.conj(ifs)
+                up = context(sig_of(entry[0]), depth + 1)
+                if up is not None:
+                    g = ("and", up, g)
+                r = ("or", r, g)
+            return r
         for f, kills, reads, G in analysed:
             short = "%s::%s" % (symex.strip_targs(f.cls).rsplit("::", 1)[-1] if f.cls else symex.strip_targs(f.qn).rsplit("::", 2)[-2], f.name) if f.cls else f.name
             byvar = {}
@@ -1567,8 +1698,9 @@ def check_guarded_defuse(ck, facts_list_named, tier):
                                 "%d reads are dominated by a (re)computation under an implied guard" % nreads, f.file, rk[0]["line"])
             # cross-method reads of task members that prepare(cell) / prepare_point() (re)compute: every (re)computation is
             # conditional => the read guard has to imply one of them, otherwise the value of the previous cell / point survives
-            if f.name not in WRITER_METHODS and member_kills:
+            if f.name not in WRITER_METHODS and sig_of(f) not in helper_of_writer and member_kills:
                 agg = {}
+                ctx = context(sig_of(f))
                 for rd in reads:
                     if rd["var"][0] != "m" or rd["var"][1] not in member_kills:
                         continue
@@ -1582,6 +1714,15 @@ def check_guarded_defuse(ck, facts_list_named, tier):
                     gr = _Guards.conj([s[1] for s in rd["stack"] if s[0] == "if"])
                     gws = [_Guards.conj(g) for (_, _, g) in mk]
                     cex, related = _Guards.implies(gr, gws)
+                    if cex is not None and ctx is not None:
+                        # an extracted helper: the guard is established at its call sites
+                        cex2, related2 = _Guards.implies(("and", ctx, gr), gws)
+                        if cex2 is None:
+                            if f.name.startswith("_"):
+                                continue
+                            a["unknown"].append("member %s is read at line %s in %s(), whose known call sites establish the guard %s; callers outside the analysed class are not visible" % (
+                                rd["var"][2], rd["line"], f.name, _Guards.show(ctx)))
+                            continue
                     if cex is not None:
                         msg = "member %s is read at line %s under %s but %s() (re)computes it only under %s: for %s it still holds the value of the previous cell/point" % (
                             rd["var"][2], rd["line"], _Guards.show(gr), writers, " || ".join(_Guards.show(g) for g in gws),
@@ -1592,21 +1733,77 @@ def check_guarded_defuse(ck, facts_list_named, tier):
                             "%d reads: the read guard implies the guard of a (re)computation in the per-cell / per-point method" % a["n"], f.file, a["line"])
 
 
+def _formats_param(callee, pidx, by_decl, depth=0):
+    """the function clears its parameter #pidx with format() on every path to its normal exits (directly, through a reference
+    alias, or by handing it to a function that does): True / False / None (not decidable: no body, passed on to an unknown callee)"""
+    if callee is None or callee.body is None or callee.cfg is None or pidx >= len(callee.params) or depth > 2:
+        return None
+    d = callee.params[pidx]["d"]
+    env = norm.DefEnv(callee)
+    pred, any_clear, escapes = _clear_pred(callee, env, d, by_decl, depth)
+    ok, _ = callee.cfg.must_pass(pred)
+    if ok:
+        return True
+    return None if escapes else False
+
+
+def _clear_pred(f, env, d, by_decl, depth=0):
+    """-> (predicate on CFG statements "clears the object of declaration d", list of clearing nodes, escapes?)
+    escapes: d is handed by non-const reference to a callee the rule cannot follow (it may clear it)"""
+    clearing, escapes = [], []
+
+    def is_d(x):
+        a = env.alias(x)
+        return a is not None and a.get("k") == "Ref" and a.get("d") == d
+
+    verdict = {}
+    for n in f.nodes():
+        if n.get("k") == "MCall" and n.get("n") == "format" and n.get("obj") is not None and is_d(n["obj"]):
+            verdict[n.get("i")] = True
+            clearing.append(n)
+            continue
+        if featlib.is_call(n) and n.get("k") in ("Call", "MCall", "OpCall"):
+            args = list(n.get("a") or [])
+            off = 0
+            tgt = by_decl.get(n.get("cdecl")) if by_decl else None
+            if n.get("k") == "OpCall" and len(n.get("pt") or n.get("pn") or []) == len(args) - 1:
+                off = 1      # member operator: the first operand is the receiver (a method other than format() does not clear)
+            for pos, a in enumerate(args):
+                if pos < off or not is_d(a):
+                    continue
+                pts = n.get("pt") or []
+                ty = f.type(pts[pos - off]) if 0 <= pos - off < len(pts) else ""
+                mutable = ty.rstrip().endswith("&") and not ty.lstrip().startswith("const ")
+                if not mutable:
+                    continue
+                r = _formats_param(tgt, pos - off, by_decl, depth + 1) if tgt is not None else None
+                if r:
+                    verdict[n.get("i")] = True
+                    clearing.append(n)
+                elif r is None and "ScatterAxpy" not in (n.get("callee") or "") and "GatherAxpy" not in (n.get("callee") or ""):
+                    escapes.append(n)
+    return (lambda st: verdict.get(st.get("i")) is True), clearing, escapes
+
+
 def check_outputs_cleared(ck, facts, tier):
     """E7.output-cleared"""
     # documentation: these entry points ASSEMBLE (overwrite) their outputs; the generic operator/functional assemblers ADD (alpha-scaled)
     MUST_CLEAR = {"FEAT::Assembly::GradPresDivVeloAssembler::assemble": ("kernel/assembly/gpdv_assembler.hpp", "Assembles the B and D matrices"),
                   "FEAT::Assembly::GradOperatorAssembler::assemble": ("kernel/assembly/grad_operator_assembler.hpp", "Assembles")}
+    by_decl = {f.d.get("decl"): f for f in facts.functions if f.tk != "pattern" and f.body is not None and f.d.get("decl") is not None}
     seen = set()
     for f in sorted(facts.functions, key=lambda f: f.full):
         if f.tk == "pattern" or f.cfg is None or "/kernel/assembly/" not in f.file:
             continue
+        env = norm.DefEnv(f)
         scat = []
         for n in f.nodes():
-            if n.get("k") == "Var" and (n.get("init") or {}).get("k") in ("Construct", "TempObj") and "ScatterAxpy::ScatterAxpy" in (n["init"].get("callee") or ""):
-                a = n["init"].get("a", [])
-                if len(a) == 1 and a[0].get("k") == "Ref" and a[0].get("dk") == "param":
-                    scat.append((a[0]["d"], a[0]["n"], n["init"]))
+            ini = norm.strip(n.get("init")) if n.get("k") == "Var" else None
+            if ini is not None and ini.get("k") in ("Construct", "TempObj") and "ScatterAxpy::ScatterAxpy" in (ini.get("callee") or ""):
+                a = ini.get("a", [])
+                a0 = env.alias(a[0]) if len(a) == 1 else None
+                if a0 is not None and a0.get("k") == "Ref" and a0.get("dk") == "param":
+                    scat.append((a0["d"], a0["n"], ini))
         if not scat:
             continue
         qn = symex.strip_targs(f.qn)
@@ -1616,24 +1813,28 @@ def check_outputs_cleared(ck, facts, tier):
         seen.add(key0)
         status = {}
         for d, name, ctor in scat:
-            fmts = [n for n in f.nodes() if n.get("k") == "MCall" and n.get("n") == "format" and (n.get("obj") or {}).get("k") == "Ref" and n["obj"].get("d") == d]
+            pred, fmts, escapes = _clear_pred(f, env, d, by_decl)
             wb = f.cfg.block_of(ctor.get("i"))
             if wb is None:
                 # the constructor expression itself is not a CFG element: use the enclosing declaration's first element
-                status[name] = ("?", fmts)
+                status[name] = ("?", fmts, "ScatterAxpy construction not found in the CFG")
                 continue
-            ok, bad = f.cfg.must_pass(lambda s, d=d: s.get("k") == "MCall" and s.get("n") == "format" and (s.get("obj") or {}).get("k") == "Ref" and s["obj"].get("d") == d, target_blocks=[wb[0]])
-            status[name] = ("all" if ok else ("some" if fmts else "none"), fmts)
-        for name, (st, fmts) in sorted(status.items()):
+            ok, bad = f.cfg.must_pass(pred, target_blocks=[wb[0]])
+            if not ok and escapes:
+                status[name] = ("?", fmts, "%s is handed to %s (line %s), which the rule cannot follow and which may clear it" % (
+                    name, (escapes[0].get("callee") or "?").rsplit("::", 1)[-1], escapes[0].get("l")))
+                continue
+            status[name] = ("all" if ok else ("some" if fmts else "none"), fmts, "")
+        for name, (st, fmts, why) in sorted(status.items()):
             key = "%s/%s" % (key0, name)
             if st == "?":
-                ck.incomplete("E7.output-cleared", "%s: ScatterAxpy construction not found in the CFG" % key)
+                ck.incomplete("E7.output-cleared", "%s: %s" % (key, why))
                 continue
-            others = {s for n2, (s, _) in status.items() if n2 != name}
+            others = {s2 for n2, (s2, _, _) in status.items() if n2 != name}
             doc = MUST_CLEAR.get(qn)
             problems = []
             if st == "some":
-                problems.append("%s.format() (line %s) is executed on some paths to the scatter loop only: on the other paths the cell loop adds onto stale values" % (name, fmts[0].get("l")))
+                problems.append("%s is cleared (line %s) on some paths to the scatter loop only: on the other paths the cell loop adds onto stale values" % (name, fmts[0].get("l")))
             if st != "all" and "all" in others:
                 problems.append("%s is not cleared on every path although the sibling output of the same function is" % name)
             if st == "none" and doc is not None:
@@ -1654,7 +1855,10 @@ def _is_elem_member(n):
 
 
 def check_element_index_kind(ck, tier):
-    """E2.element-index-kind"""
+    """E2.element-index-kind.  Every spelling of "store into the element list" is a sink (subscript / at() / push_back /
+    insert / assign / std::iota / std::fill / std::copy / std::transform / range-for by reference / `*it = v` / whole
+    assignment / swap, on the member or on a reference alias of it); the stored values are judged through one taint
+    relation "is a value of the OLD list" that follows copies made by the same spellings (lib/norm_c16)."""
     try:
         facts = featlib.extract("tu/c17_domain_assembler.cpp", files=F("kernel/assembly/domain_assembler.hpp"))
     except (featlib.AnalysisBroken, OSError) as e:
@@ -1669,61 +1873,123 @@ def check_element_index_kind(ck, tier):
         if not any(_is_elem_member(n) for n in nodes):
             continue
         seen.add((f.name, len(f.params)))
+        env = norm.DefEnv(f)
+
+        def is_E(n):
+            """the element list itself (member, or a reference local bound to it)"""
+            return _is_elem_member(env.alias(n))
+
         # --- taint: containers / scalars that hold values of the OLD element list ------------------------------------
         cont, scal = set(), set()      # decl ids
+
+        def strip(n):
+            n = norm.strip(n)
+            while n is not None and n.get("k") in ("Construct", "TempObj") and len(n.get("a", [])) == 1 and "vector" in (n.get("callee") or ""):
+                n = norm.strip(n["a"][0])
+            return n
 
         def is_container(n):
             """expression denotes the old element list or a (copy / translated) container of its values"""
             n = strip(n)
-            if _is_elem_member(n):
-                return True
-            return n is not None and n.get("k") == "Ref" and n.get("d") in cont
-
-        def strip(n):
-            while n is not None:
-                if n.get("k") == "Cast":
-                    n = n.get("e")
-                elif n.get("k") in ("Call",) and (n.get("callee") or "") in ("std::move", "std::forward") and n.get("a"):
-                    n = n["a"][0]
-                elif n.get("k") in ("Construct", "TempObj") and len(n.get("a", [])) == 1 and "vector" in (n.get("callee") or ""):
-                    n = n["a"][0]
-                else:
-                    break
-            return n
-
-        def is_elem_value(n):
-            """expression is a value taken from the old element list (mesh element number)"""
-            n = strip(n)
             if n is None:
                 return False
-            if n.get("k") == "MCall" and n.get("n") in ("at", "front", "back") and is_container(n.get("obj")):
+            if is_E(n):
                 return True
-            if n.get("k") == "OpCall" and n.get("op") == "[]" and n.get("a") and is_container(n["a"][0]):
+            a = env.alias(n)
+            if a is not None and a.get("k") == "Ref" and a.get("d") in cont:
                 return True
-            if n.get("k") == "Index" and is_container(n.get("b")):
+            if n.get("k") in ("Construct", "TempObj") and len(n.get("a", [])) == 2 and "vector" in (n.get("callee") or ""):
+                s0 = norm.iter_source(n["a"][0], env)      # vector(first, last)
+                return s0 is not None and is_container(s0)
+            return False
+
+        def is_elem_value(n, depth=0):
+            """expression is a value taken from the old element list (mesh element number)"""
+            n = strip(n)
+            if n is None or depth > 8:
+                return False
+            X = norm.elem_access(n, env)
+            if X is not None and is_container(X):
                 return True
             if n.get("k") == "Ref" and n.get("d") in scal:
                 return True
-            if n.get("k") == "Un" and n.get("op") == "*":
-                return is_elem_value(n.get("e"))
+            if n.get("k") == "Ref" and n.get("d") in env.refs:
+                return is_elem_value(env.refs[n["d"]], depth + 1)
+            if n.get("k") == "Cond":
+                return is_elem_value(n.get("then"), depth + 1) and is_elem_value(n.get("else"), depth + 1)
             return False
 
-        def lhs_root(n):
-            n = strip(n)
-            if n is None:
-                return None, False
-            if n.get("k") == "Ref" and n.get("dk") in ("local", "param"):
-                return n.get("d"), False
-            if n.get("k") == "MCall" and n.get("n") in ("at", "front", "back"):
-                r, _ = lhs_root(n.get("obj"))
-                return r, True
-            if n.get("k") == "OpCall" and n.get("op") == "[]" and n.get("a"):
-                r, _ = lhs_root(n["a"][0])
-                return r, True
-            if n.get("k") == "Index":
-                r, _ = lhs_root(n.get("b"))
-                return r, True
-            return None, False
+        def root_decl(n):
+            a = env.alias(n)
+            return a.get("d") if a is not None and a.get("k") == "Ref" and a.get("dk") in ("local", "param") else None
+
+        def value_verdict(x):
+            """True: a value of the old list; False: definitely something else (a plain read of another array / a counter /
+            a literal); None: produced by an expression the rule does not understand (a callee could translate)"""
+            if is_elem_value(x):
+                return True
+            s0 = strip(x)
+            if s0 is not None and (s0.get("k") in ("Index", "Ref", "Int") or (s0.get("k") in ("OpCall", "MCall") and s0.get("op", s0.get("n")) in ("[]", "at"))):
+                return False
+            X = norm.elem_access(s0, env) if s0 is not None else None
+            if X is not None and (env.alias(X) or {}).get("k") in ("Ref", "Member", "MCall", "Call"):
+                return False       # `*it` / `it[k]`: a plain read of another array
+            return None
+
+        def src_ok(src):
+            """True / False (definitely not) / None (not decidable): the stored values are values of the old list"""
+            kind = src[0]
+            if kind == "value":
+                return value_verdict(src[1])
+            if kind == "range":
+                if src[1] is None:
+                    return None
+                if is_container(src[1]):
+                    return True
+                return False if (env.alias(src[1]) or {}).get("k") in ("Ref", "Member") else None
+            if kind == "permute":
+                return True
+            if kind == "counter":
+                return False
+            if kind == "transform":
+                rets, _ = norm.lambda_returns(norm.strip(src[2]))
+                if not rets:
+                    return None
+                vs = [value_verdict(r) for r in rets]
+                return True if all(v is True for v in vs) else (False if any(v is False for v in vs) else None)
+            return None
+
+        # reference variables of range-for loops denote one element of the range
+        range_var = {}
+        for n in nodes:
+            if n.get("k") == "ForRange":
+                v = n.get("var") or {}
+                vt = f.type(v.get("t")) if v.get("t") is not None else ""
+                if (v.get("ref") or vt.rstrip().endswith("&")) and "const" not in vt and v.get("d") is not None:
+                    range_var[v["d"]] = n.get("range")
+
+        def stores(n):
+            """[(destination container expr, 'element' | 'whole', src)] of node n"""
+            k = n.get("k")
+            out = []
+            if k == "Assign" and n.get("op") == "=":
+                X = norm.elem_access(n.get("lhs"), env)
+                l0 = norm.strip(n.get("lhs")) or {}
+                if X is None and l0.get("k") == "Ref" and l0.get("d") in range_var:
+                    X = env.alias(range_var[l0["d"]])
+                if X is not None:
+                    out.append((X, "element", ("value", n.get("rhs"))))
+                else:
+                    out.append((env.alias(n.get("lhs")), "scalar", ("value", n.get("rhs"))))
+            elif k == "OpCall" and n.get("op") == "=" and len(n.get("a", [])) == 2:
+                X = norm.elem_access(n["a"][0], env)
+                if X is not None:
+                    out.append((X, "element", ("value", n["a"][1])))
+                else:
+                    out.append((env.alias(n["a"][0]), "whole", ("range", strip(n["a"][1]))))
+            for e in norm.container_effects(n, env):
+                out.append((e["dst"], "whole" if e["mode"] == "whole" else "element", e["src"]))
+            return out
         changed = True
         rounds = 0
         while changed and rounds < 8:
@@ -1731,85 +1997,73 @@ def check_element_index_kind(ck, tier):
             rounds += 1
             for n in nodes:
                 k = n.get("k")
-                if k == "Var" and n.get("init") is not None:
+                if k == "Var" and n.get("init") is not None and not (n.get("ref") or f.type(n.get("t")).rstrip().endswith("&")):
                     if is_container(n["init"]) and n["d"] not in cont:
                         cont.add(n["d"]); changed = True
                     elif is_elem_value(n["init"]) and n["d"] not in scal:
                         scal.add(n["d"]); changed = True
-                src = dst = None
-                if k == "Assign" and n.get("op") == "=":
-                    dst, src = n.get("lhs"), n.get("rhs")
-                elif k == "OpCall" and n.get("op") == "=" and len(n.get("a", [])) == 2:
-                    dst, src = n["a"][0], n["a"][1]
-                elif k == "MCall" and n.get("n") in ("push_back", "emplace_back") and len(n.get("a", [])) == 1:
-                    dst, src = n.get("obj"), n["a"][0]
-                    r, _ = lhs_root(dst)
-                    if r is not None and is_elem_value(src) and r not in cont:
+                if k == "ForRange" and is_container(n.get("range")) and (n.get("var") or {}).get("d") is not None and n["var"]["d"] not in scal:
+                    scal.add(n["var"]["d"]); changed = True
+                for dst, kind, src in stores(n):
+                    r = root_decl(dst)
+                    if r is None:
+                        continue
+                    ok = src_ok(src)
+                    if kind in ("element", "whole") and ok and r not in cont and src[0] != "permute":
                         cont.add(r); changed = True
-                    continue
-                if dst is None:
-                    continue
-                r, elementwise = lhs_root(dst)
-                if r is None:
-                    continue
-                if elementwise and is_elem_value(src) and r not in cont:
-                    cont.add(r); changed = True
-                elif not elementwise and is_container(src) and r not in cont:
-                    cont.add(r); changed = True
-                elif not elementwise and is_elem_value(src) and r not in scal:
-                    scal.add(r); changed = True
+                    elif kind == "scalar" and ok and r not in scal:
+                        scal.add(r); changed = True
         # --- does the function reorder (read the old content)? ------------------------------------------------------
-        reads_old = False
         store_dst = set()
         for n in nodes:
             if n.get("k") == "Assign" and n.get("op") == "=":
-                d0 = strip(n.get("lhs"))
-                if d0 is not None:
-                    store_dst.add(id(d0))
+                store_dst.add(id(norm.strip(n.get("lhs"))))
+            if n.get("k") == "OpCall" and n.get("op") == "=" and n.get("a"):
+                store_dst.add(id(norm.strip(n["a"][0])))
+        reads_old = False
         for n in nodes:
             if id(n) in store_dst:
                 continue
-            if n.get("k") == "MCall" and _is_elem_member(n.get("obj")) and n.get("n") in ("at", "front", "back"):
+            X = norm.elem_access(n, env)
+            if X is not None and is_E(X):
                 reads_old = True
-            if n.get("k") == "OpCall" and n.get("op") == "[]" and n.get("a") and _is_elem_member(n["a"][0]):
-                reads_old = True
-            if n.get("k") in ("Construct", "TempObj") and len(n.get("a", [])) == 1 and _is_elem_member(strip(n["a"][0])):
-                reads_old = True
+            if n.get("k") in ("Construct", "TempObj") and "vector" in (n.get("callee") or "") and n.get("a"):
+                a0 = n["a"][0]
+                if (len(n["a"]) == 1 and is_E(strip(a0))) or (len(n["a"]) == 2 and norm.iter_source(a0, env) is not None and is_E(norm.iter_source(a0, env))):
+                    reads_old = True
+            if n.get("k") == "ForRange" and is_E(n.get("range")):
+                v = n.get("var") or {}
+                vt = f.type(v.get("t")) if v.get("t") is not None else ""
+                if not ((v.get("ref") or vt.rstrip().endswith("&")) and "const" not in vt):
+                    reads_old = True
+            for e in norm.container_effects(n, env):
+                if e["src"][0] in ("range", "transform") and e["src"][1] is not None and is_E(e["src"][1]) and not is_E(e["dst"]):
+                    reads_old = True
         # --- sinks ---------------------------------------------------------------------------------------------------
         sinks = []
         for n in nodes:
-            k = n.get("k")
-            if k == "Assign" and n.get("op") == "=":
-                d0 = strip(n.get("lhs"))
-                if d0 is not None and ((d0.get("k") == "MCall" and d0.get("n") == "at" and _is_elem_member(d0.get("obj"))) or
-                                       (d0.get("k") == "OpCall" and d0.get("op") == "[]" and d0.get("a") and _is_elem_member(d0["a"][0]))):
-                    sinks.append((n, n.get("rhs"), "element"))
-            elif k == "OpCall" and n.get("op") == "=" and len(n.get("a", [])) == 2 and _is_elem_member(strip(n["a"][0])):
-                sinks.append((n, n["a"][1], "whole"))
-            elif k == "MCall" and n.get("n") in ("push_back", "emplace_back") and _is_elem_member(n.get("obj")) and len(n.get("a", [])) == 1:
-                sinks.append((n, n["a"][0], "element"))
+            for dst, kind, src in stores(n):
+                if kind != "scalar" and dst is not None and is_E(dst) and src[0] != "permute":
+                    sinks.append((n, src, kind))
         if not sinks:
             continue
         key = "DomainAssembler::%s" % f.name
         # an initial fill states its belief: XASSERT(_element_indices.empty()) (the mesh element numbers are then enumerated directly)
         asserts_empty = any(n.get("k") == "Call" and (n.get("callee") or "") == "FEAT::assertion" and
-                            any(x.get("k") == "MCall" and x.get("n") == "empty" and _is_elem_member(x.get("obj")) for x in walk(n)) for n in nodes)
+                            any(x.get("k") == "MCall" and x.get("n") == "empty" and is_E(x.get("obj")) for x in walk(n)) for n in nodes)
         if asserts_empty and not reads_old:
             ck.ob("E2.element-index-kind", key, True, "initial fill of the element list (asserted empty on entry, %d stores)" % len(sinks), f.file, f.line, trivial=True)
             continue
         problems, unknown = [], []
         for n, src, kind in sinks:
-            ok = is_container(src) if kind == "whole" else is_elem_value(src)
+            ok = src_ok(src)
             if ok:
                 continue
-            s0 = strip(src)
-            msg = "line %s stores %s into the element list: a %s that is not taken from the previous element list (local position instead of mesh element number)" % (
-                n.get("l"), featlib.render(src)[:80], "container" if kind == "whole" else "value")
-            # an unmodelled callee producing the value could translate: only plain reads of other arrays / counters are definite
-            if s0 is not None and s0.get("k") in ("Index", "Ref", "Int") or (s0 is not None and s0.get("k") in ("OpCall", "MCall") and s0.get("op", s0.get("n")) in ("[]", "at")):
-                problems.append(msg)
-            else:
-                unknown.append(msg)
+            shown = src[1] if src[0] in ("value", "counter") else n
+            msg = "line %s stores %s into the element list: %s that is not taken from the previous element list (local position instead of mesh element number)" % (
+                n.get("l"), featlib.render(shown)[:80], {"value": "a value", "counter": "consecutive counter values (std::iota)", "range": "the elements of a container", "transform": "transformed values"}.get(src[0], "values"))
+            definite = ok is False
+            (problems if definite else unknown).append(msg)
         _finish(ck, "E2.element-index-kind", key, problems, unknown, "%d stores into the reordered element list take their values from the previous list (position -> mesh element translation kept)" % len(sinks), f.file, f.line)
 
 
@@ -1895,6 +2149,17 @@ def _guard_walk(fn, G, on_node):
         if n is None or not isinstance(n, dict):
             return
         k = n.get("k")
+        if k == "Block":
+            on_node(n, stack)
+            for st, guards in norm.guarded_statements(n):
+                visit(st, stack + [G.formula(c) if pol else ("not", G.formula(c)) for c, pol in guards])
+            return
+        if k == "Switch" and isinstance(n.get("body"), dict) and n["body"].get("k") == "Block":
+            on_node(n, stack)
+            visit(n.get("c"), stack)
+            for st, f in _switch_arms(n, G):
+                visit(st, stack + [f])
+            return
         if k == "If":
             visit(n.get("init"), stack)
             visit(n.get("c"), stack)
@@ -1902,6 +2167,12 @@ def _guard_walk(fn, G, on_node):
             visit(n.get("then"), stack + [f])
             if n.get("else") is not None:
                 visit(n["else"], stack + [("not", f)])
+            return
+        if k == "Cond":
+            f = G.formula(n["c"])
+            visit(n["c"], stack)
+            visit(n.get("then"), stack + [f])
+            visit(n.get("else"), stack + [("not", f)])
             return
         if k == "Bin" and n.get("op") in ("&&", "||"):
             f = G.formula(n["lhs"])
@@ -2019,6 +2290,7 @@ class SlotFlow:
         self.names = {}
         self.prepared = {}
         self.frames = [{"this": None, "ret": set(), "fn": fn, "path": ()}]
+        self.lambdas = {}      # local variable key -> Lambda node (closures are evaluated where they are CALLED)
         self.events = {}
         self.fresh = 0
         self.nslots = 0
@@ -2145,6 +2417,8 @@ class SlotFlow:
         self.names[n["d"]] = n.get("n")
         ty = self.type(n)
         init = n.get("init")
+        if isinstance(init, dict) and init.get("k") == "Lambda":
+            self.lambdas[key] = init
         T = self.ev(init) if init is not None else frozenset()
         is_ref = bool(n.get("ref")) or ty.rstrip().endswith("&")
         if is_ref and init is not None:
@@ -2369,7 +2643,10 @@ class SlotFlow:
 
     def do_inline(self, n, callee, obj, args, Targs):
         th = self.root(obj) if obj is not None else None
-        if obj is not None and th is None:
+        own = obj is None or (isinstance(obj, dict) and obj.get("k") == "This")
+        if own and callee.cls == self.cur()["fn"].cls:
+            th = self.cur()["this"]       # a member helper called on the same object: its member reads are ours
+        elif obj is not None and th is None:
             self.fresh += 1
             th = ("tmp", self.fresh)
             self.write(th, self.ev(obj), strong=True)
@@ -2419,6 +2696,15 @@ class SlotFlow:
         member = len(a) == len(n.get("pt") or []) + 1
         if op == "[]" and len(a) == 2:
             return self.indexed(n, a[0], a[1:])
+        if op == "()" and a and self.root(a[0]) in self.lambdas and len(self.frames) < 6:
+            # call of a local closure: its body runs NOW, reading the captured variables as they are at the call
+            lam = self.lambdas[self.root(a[0])]
+            Targs = frozenset().union(*[self.ev(x) for x in a[1:]]) if len(a) > 1 else frozenset()
+            frame = {"this": self.cur()["this"], "ret": set(), "fn": self.cur()["fn"], "path": self.cur()["path"] + (n.get("i"),)}
+            self.frames.append(frame)
+            self.ev(lam.get("body"))
+            self.frames.pop()
+            return frozenset(frame["ret"] | Targs)
         if op == "()" and member and a:
             r = self.root(a[0])
             if r is not None and r in self.prepared:
@@ -2478,8 +2764,82 @@ def compare_slots(sf, owner, inp, pairs):
 
 
 def trace_inline(call, callee):
-    """helper classes defined next to the assembler (CommonDofMap, CompIndexMap) are followed, everything else is a call"""
-    return "trace_assembler.hpp" in callee.file and "::Intern::" in (callee.cls or "")
+    """helper classes defined next to the assembler (CommonDofMap, CompIndexMap) and the private helpers of the assembler
+    itself (extracted blocks: they read the per-facet arrays through `this`) are followed, everything else is a call"""
+    if "trace_assembler.hpp" not in callee.file:
+        return False
+    if "::Intern::" in (callee.cls or ""):
+        return True
+    return strip_targs(callee.cls or "").endswith("Assembly::TraceAssembler") and not callee.name.startswith("assemble") and not callee.d.get("ctor")
+
+
+def _append_balance(body, arrays):
+    """the record arrays grow together: on every path through the function (and through one iteration of every loop) the
+    number of push_back / emplace_back calls is the same for each of `arrays` (how the appends are grouped into blocks,
+    nested ifs or early `continue`s does not matter).  -> (problems, unknown, number of appends)"""
+    problems, unknown = [], []
+    npush = [0]
+    ZERO = tuple(0 for _ in arrays)
+
+    def add(a, b):
+        return tuple(x + y for x, y in zip(a, b))
+
+    def own_pushes(n):
+        """appends in the expression / simple statement n (not descending into nested statements)"""
+        v = list(ZERO)
+        line = None
+        for x in walk(n):
+            if x.get("k") == "MCall" and x.get("n") in ("push_back", "emplace_back"):
+                o = x.get("obj") or {}
+                if o.get("k") == "Member" and (o.get("b") or {}).get("k") == "This" and o.get("n") in arrays:
+                    v[arrays.index(o.get("n"))] += 1
+                    npush[0] += 1
+                    line = x.get("l")
+        return tuple(v), line
+
+    def check_end(vec, line, what):
+        if len(set(vec)) > 1:
+            problems.append("%s at line %s appends %s: the routes index %s with one common slot index" % (
+                what, line, ", ".join("%dx %s" % (c, a) for a, c in zip(arrays, vec)), ",".join(arrays)))
+
+    def run(n, starts):
+        """starts: set of count vectors on entry; -> set of vectors with which control falls through n"""
+        if not isinstance(n, dict) or not starts:
+            return starts
+        if len(starts) > 64:
+            unknown.append("more than 64 append-count combinations")
+            return {next(iter(starts))}
+        k = n.get("k")
+        if k == "Block":
+            cur = starts
+            for st in n.get("s") or []:
+                cur = run(st, cur)
+            return cur
+        if k == "If":
+            c, _ = own_pushes(n.get("c"))
+            s0 = {add(v, c) for v in starts}
+            return run(n.get("then"), s0) | (run(n.get("else"), s0) if n.get("else") is not None else s0)
+        if k in ("For", "While", "Do", "ForRange"):
+            # one iteration must be balanced by itself; the loop as a whole then contributes nothing unbalanced
+            out = run(n.get("body"), {ZERO})
+            for v in out:
+                check_end(v, n.get("l"), "one iteration of the loop")
+            return starts
+        if k in ("Return", "Continue", "Break", "Throw"):
+            for v in starts:
+                check_end(v, n.get("l"), "the path ending")
+            return set()
+        if k == "Switch":
+            unknown.append("switch statement at line %s" % n.get("l"))
+            return starts
+        if k == "Try":
+            return run(n.get("body") or n.get("s"), starts)
+        c, line = own_pushes(n)
+        return {add(v, c) for v in starts}
+    for v in run(body, {ZERO}):
+        check_end(v, None, "a path through the function")
+    # every message once
+    return sorted(set(problems)), sorted(set(unknown)), npush[0]
 
 
 def check_trace_slots(ck, facts, tier):
@@ -2515,32 +2875,15 @@ def check_trace_slots(ck, facts, tier):
     for f in sorted(facts.functions, key=lambda f: f.full):
         if f.tk == "pattern" or f.body is None or "trace_assembler.hpp" not in f.file or not strip_targs(f.cls or "").endswith("Assembly::TraceAssembler"):
             continue
-        blocks = {}
-        def visit(n, blk):
-            if not isinstance(n, dict):
-                return
-            if n.get("k") == "Block":
-                blk = n.get("i")
-            if n.get("k") == "MCall" and n.get("n") in ("push_back", "emplace_back"):
-                o = n.get("obj") or {}
-                if o.get("k") == "Member" and (o.get("b") or {}).get("k") == "This" and o.get("n") in record_arrays:
-                    blocks.setdefault(blk, []).append((o.get("n"), n.get("l")))
-            for c in featlib.children(n):
-                visit(c, blk)
-        visit(f.body, None)
-        if not blocks:
+        problems, unknown_rec, npush = _append_balance(f.body, record_arrays)
+        if not npush:
             continue
         m = re.search(r"Shape::(\w+)<(\d)>", f.cls)
         key = "records/%s/%s" % (f.name, "%s%s" % (m.group(1), m.group(2)) if m else "?")
         if key in seen_rec:
             continue
         seen_rec.add(key)
-        problems = []
-        for blk, pushes in sorted(blocks.items(), key=lambda kv: str(kv[0])):
-            names = sorted(a for a, _ in pushes)
-            if names != record_arrays:
-                problems.append("the block at line %s appends to %s, the routes index %s with one common slot index" % (pushes[0][1], ",".join(names), ",".join(record_arrays)))
-        _finish(ck, rule, key, problems, [], "every appending block appends exactly once to each of %s" % ",".join(record_arrays), f.file, f.line)
+        _finish(ck, rule, key, problems, unknown_rec, "on every path every appending step appends equally often to each of %s" % ",".join(record_arrays), f.file, f.line)
     for label, f, sf in analysed:
         evs = sorted(sf.events.items(), key=lambda kv: (len(kv[0][0]), kv[1]["line"] or 0, kv[0][1] or 0))
         n_eval = 0
@@ -2633,74 +2976,216 @@ def _members_read(fn):
     return {n.get("n") for n in fn.nodes() if n.get("k") == "Member" and (n.get("b") or {}).get("k") == "This" and n.get("field")}
 
 
-def analyse_clear(fn):
-    """-> (reset members, dead loops [(member, line)], unknown [text])"""
-    reset, emptied, dead, unknown = set(), set(), [], []
+def analyse_clear(fn, by_decl=None, depth=0):
+    """-> (members reset on EVERY path through clear(), dead loops [(member, line)], unknown [text]).
+    Path-wise walk over the statements (if / early return forked, private helpers of the class followed two levels deep);
+    every spelling of "all elements of X := v" counts: X.clear(), X.assign(n, v), X = ..., swap with a fresh container,
+    std::fill / fill_n over [X.begin(), X.end()), range-for by reference, index / iterator loops over the whole of X."""
+    env = norm.DefEnv(fn)
+    dead, unknown = [], []
 
-    def stmts(n):
-        if isinstance(n, dict) and n.get("k") == "Block":
-            for s in n.get("s") or []:
-                yield from stmts(s)
-        elif isinstance(n, dict):
-            yield n
+    def member_of(n):
+        m, direct = _this_member_root(env.alias(n))
+        return m if direct else None
 
-    for st in stmts(fn.body):
-        k = st.get("k")
-        if k == "MCall":
-            m, direct = _this_member_root(st.get("obj"))
-            if m is not None and direct and st.get("n") == "clear":
-                reset.add(m)
-                emptied.add(m)
+    def mentions_size(node, m, d=0):
+        """node (locals resolved through their single definition) contains <member m>.size() / .end()"""
+        for x in walk(node):
+            if x.get("k") == "MCall" and x.get("n") in ("size", "end", "cend") and member_of(x.get("obj")) == m:
+                return True
+            if x.get("k") == "Ref" and d < 4:
+                df = env.single_def(x.get("d"))
+                if df is not None and mentions_size(df, m, d + 1):
+                    return True
+        return False
+
+    def fresh_container(n):
+        n = norm.strip(n)
+        if n is None:
+            return False
+        if n.get("k") in ("Construct", "TempObj"):
+            return not any(x.get("k") == "Member" and (x.get("b") or {}).get("k") == "This" for x in walk(n))
+        if n.get("k") == "Ref" and n.get("dk") == "local":
+            df = env.single_def(n.get("d"))
+            return df is None or fresh_container(df)
+        return False
+
+    def emptiness_test(c, pol=True):
+        """(member, polarity) if c is true exactly when <member> is empty (pol) / non-empty (not pol)"""
+        c = norm.strip(c)
+        if c is None:
+            return None
+        if c.get("k") == "Un" and c.get("op") == "!":
+            return emptiness_test(c.get("e"), not pol)
+        if c.get("k") == "MCall" and c.get("n") == "empty" and member_of(c.get("obj")):
+            return member_of(c["obj"]), pol
+        if c.get("k") == "Bin" and c.get("op") in ("==", "!=", ">", "<"):
+            for a, b, op in ((c["lhs"], c["rhs"], c["op"]), (c["rhs"], c["lhs"], {"<": ">", ">": "<"}.get(c["op"], c["op"]))):
+                a, b = norm.strip(a), norm.strip(b)
+                while b is not None and b.get("k") in ("Construct", "TempObj") and len(b.get("a") or []) == 1:
+                    b = norm.strip(b["a"][0])
+                if a is not None and a.get("k") == "MCall" and a.get("n") == "size" and member_of(a.get("obj")) and b is not None and b.get("k") == "Int" and int(b.get("v", 1)) == 0:
+                    if op == "==":
+                        return member_of(a["obj"]), pol
+                    if op in ("!=", ">"):
+                        return member_of(a["obj"]), not pol
+        return None
+
+    def whole_loop_reset(st, state):
+        """counted / iterator loop assigning every element of a member container"""
+        body = st.get("body")
+        ms = set()
+        for x in walk(body):
+            lhs = x.get("lhs") if x.get("k") == "Assign" and x.get("op") == "=" else (x["a"][0] if x.get("k") == "OpCall" and x.get("op") == "=" and x.get("a") else None)
+            if lhs is None:
                 continue
-            if m is not None and direct and st.get("n") in ("assign", "resize") and st.get("n") == "assign":
-                reset.add(m)
-                emptied.discard(m)
-                continue
+            X = norm.elem_access(lhs, env)
+            m = member_of(X) if X is not None else None
             if m is not None:
-                emptied.discard(m)
-                unknown.append("%s at line %s" % (featlib.render(st)[:60], st.get("l")))
-            continue
+                ms.add(m)
+        if not ms:
+            return False
+        if any(x.get("k") == "MCall" and x.get("n") in _CONTAINER_WRITERS for x in walk(body)):
+            return False
+        for m in ms:
+            if mentions_size(st.get("c"), m) or mentions_size(st.get("init"), m):
+                if m in state["emptied"]:
+                    dead.append((m, st.get("l")))
+                else:
+                    state["reset"].add(m)
+            else:
+                unknown.append("loop at line %s writes %s but does not run over all of it (bound is not its size / end)" % (st.get("l"), m))
+        return True
+
+    def touches_members(st):
+        return {x.get("n") for x in walk(st) if x.get("k") == "Member" and (x.get("b") or {}).get("k") == "This" and x.get("field")}
+
+    def do_stmt(st, state):
+        """-> False if the path ends (return)"""
+        k = st.get("k")
+        if k == "Block":
+            for st2 in st.get("s") or []:
+                if not do_stmt(st2, state):
+                    return False
+            return True
+        if k in ("Null_", "Decl") and not touches_members(st):
+            return True
+        if k == "Return":
+            return False
+        if k == "Call" and (st.get("callee") or "") == "FEAT::assertion":
+            return True
+        if k == "MCall":
+            obj = st.get("obj")
+            m = member_of(obj) if obj is not None else None
+            if m is not None and st.get("n") == "clear":
+                state["reset"].add(m)
+                state["emptied"].add(m)
+                return True
+            if m is not None and st.get("n") == "assign":
+                state["reset"].add(m)
+                state["emptied"].discard(m)
+                return True
+            if st.get("n") == "swap" and len(st.get("a") or []) == 1:
+                other = st["a"][0]
+                mo = member_of(other)
+                if m is not None and fresh_container(other):
+                    state["reset"].add(m); state["emptied"].discard(m)
+                    return True
+                if mo is not None and fresh_container(obj):
+                    state["reset"].add(mo); state["emptied"].discard(mo)
+                    return True
+            # a private helper of the same class: its statements are part of clear()
+            tgt = by_decl.get(st.get("cdecl")) if by_decl else None
+            if tgt is not None and tgt.body is not None and depth < 2 and (obj is None or norm.strip(obj).get("k") == "This") and tgt.cls == fn.cls:
+                r2, d2, u2 = analyse_clear(tgt, by_decl, depth + 1)
+                state["reset"] |= r2
+                state["emptied"] -= r2
+                dead.extend(d2)
+                unknown.extend(u2)
+                return True
         if k == "Assign" or (k == "OpCall" and st.get("op") == "="):
             lhs = st.get("lhs") if k == "Assign" else (st.get("a") or [None])[0]
-            m, direct = _this_member_root(lhs)
-            if m is not None and direct:
-                reset.add(m)
-                emptied.discard(m)
-            elif m is not None:
-                unknown.append("partial assignment %s at line %s" % (featlib.render(st)[:60], st.get("l")))
-            continue
+            m = member_of(lhs)
+            if m is not None:
+                state["reset"].add(m)
+                state["emptied"].discard(m)
+                return True
+        if k == "Call":
+            effs = norm.container_effects(st, env)
+            handled = False
+            for e in effs:
+                m = member_of(e["dst"])
+                if m is None:
+                    continue
+                handled = True
+                a = st.get("a") or []
+                c = strip_targs(st.get("callee", ""))
+                whole = False
+                if c in ("std::fill", "std::iota") and len(a) == 3:
+                    f0, f1 = norm.strip(a[0]), norm.strip(a[1])
+                    whole = (f0.get("k") == "MCall" and f0.get("n") in ("begin", "data") and member_of(f0.get("obj")) == m and mentions_size(f1, m))
+                elif c == "std::fill_n" and len(a) == 3:
+                    f0 = norm.strip(a[0])
+                    whole = f0.get("k") == "MCall" and f0.get("n") in ("begin", "data") and member_of(f0.get("obj")) == m and mentions_size(a[1], m)
+                    gone = [m2 for m2 in sorted(state["emptied"]) if m2 != m and mentions_size(a[1], m2)]
+                    if not whole and gone:
+                        dead.append((gone[0], st.get("l")))      # the count is the size of a container emptied just before
+                        continue
+                elif c == "std::swap":
+                    whole = e["src"][0] == "range" and fresh_container(e["src"][1])
+                if whole and e["src"][0] in ("value", "counter", "range"):
+                    if m in state["emptied"]:
+                        dead.append((m, st.get("l")))
+                    else:
+                        state["reset"].add(m)
+                else:
+                    unknown.append("%s at line %s writes %s but not recognisably all of it" % (featlib.render(st)[:60], st.get("l"), m))
+            if handled:
+                return True
         if k == "ForRange":
-            m, direct = _this_member_root(st.get("range"))
+            m = member_of(st.get("range"))
             var = st.get("var") or {}
             assigns = [x for x in walk(st.get("body")) if x.get("k") == "Assign" and x.get("op") == "=" and (x.get("lhs") or {}).get("k") == "Ref"
                        and x["lhs"].get("d") == var.get("d")]
-            if m is not None and direct:
-                if m in emptied:
+            if m is not None:
+                if m in state["emptied"]:
                     dead.append((m, st.get("l")))
                 elif assigns and var.get("ref"):
-                    reset.add(m)
+                    state["reset"].add(m)
                 else:
                     unknown.append("range-for over %s at line %s does not assign its elements" % (m, st.get("l")))
-                continue
-        if k == "For":
-            tg = [(_this_member_root(x.get("lhs")), x) for x in walk(st.get("body")) if x.get("k") == "Assign" and x.get("op") == "="]
-            ms = {m for ((m, d), x) in tg if m is not None and not d}
-            if ms and not any(is_call_node(x) and _this_member_root(x.get("obj") or {})[0] is None for x in walk(st.get("body")) if x.get("k") == "MCall" and x.get("n") in _CONTAINER_WRITERS):
-                bound = " ".join(featlib.render(st.get("c") or {}).split())
-                for m in ms:
-                    if "%s.size()" % m in bound.replace("this->", ""):
-                        reset.add(m)
-                    else:
-                        unknown.append("loop at line %s writes %s but is not bounded by its size" % (st.get("l"), m))
-                continue
-        if k == "Call" and strip_targs(st.get("callee", "")) in ("std::fill",) and st.get("a"):
-            m, _ = _this_member_root(st["a"][0])
-            if m is not None:
-                reset.add(m)
-                continue
-        touched = {x.get("n") for x in walk(st) if x.get("k") == "Member" and (x.get("b") or {}).get("k") == "This" and x.get("field")}
-        if touched:
+                return True
+        if k in ("For", "While", "Do"):
+            if whole_loop_reset(st, state):
+                return True
+        if k == "If":
+            et = emptiness_test(st.get("c"))
+            branches = []
+            for br, pol in ((st.get("then"), True), (st.get("else"), False)):
+                st2 = {"reset": set(state["reset"]), "emptied": set(state["emptied"])}
+                if et is not None and et[1] == pol:
+                    st2["reset"].add(et[0])          # the member is empty on this branch: nothing left to reset
+                    st2["emptied"].add(et[0])
+                alive = do_stmt(br, st2) if br is not None else True
+                branches.append((alive, st2))
+            cont = [b for a, b in branches if a]
+            for a, b in branches:
+                if not a:
+                    ends.append(b)
+            if not cont:
+                return False
+            state["reset"] = set.intersection(*[b["reset"] for b in cont])
+            state["emptied"] = set.intersection(*[b["emptied"] for b in cont])
+            return True
+        if touches_members(st):
             unknown.append("%s at line %s" % (featlib.render(st)[:60], st.get("l")))
+        return True
+
+    ends = []
+    state = {"reset": set(), "emptied": set()}
+    if do_stmt(fn.body or {"k": "Block", "s": []}, state):
+        ends.append(state)
+    reset = set.intersection(*[e["reset"] for e in ends]) if ends else set()
     return reset, dead, unknown
 
 
@@ -2734,12 +3219,13 @@ def check_clear_resets(ck, facts, tier):
                 if m in read:
                     selection.setdefault(m, []).append(name)
         fclear = pick("clear")
-        reset, dead, unknown = analyse_clear(fclear)
+        by_decl = {f.d.get("decl"): f for f in facts.functions if f.tk != "pattern" and f.body is not None and f.d.get("decl") is not None}
+        reset, dead, unknown = analyse_clear(fclear, by_decl)
         for m, writers in sorted(selection.items()):
             key = "%s::clear/%s" % (short, m)
             problems = []
             if m not in reset:
-                extra = "".join("; the range-for at line %s runs over %s, which was emptied by clear() just before, and never executes" % (l, dm) for dm, l in dead)
+                extra = "".join("; the loop / fill at line %s runs over %s, which was emptied by clear() just before, and never executes" % (l, dm) for dm, l in dead)
                 problems.append("%s is written by %s() and read by %s(), but clear() does not reset it%s: after clear() the next compile() still sees the old selection" % (
                     m, "(), ".join(sorted(set(writers))), "(), ".join(compiles), extra))
             _finish(ck, rule, key, problems if not unknown or m in reset else [], unknown if (unknown and m not in reset) else [],
